@@ -297,6 +297,7 @@ pub proof fn lemma_wf_op_update(pre: ProtocolState, post: ProtocolState, id: u64
         post.next_packet_id == pre.next_packet_id, post.next_operation_id == pre.next_operation_id,
         post.state == pre.state, post.config == pre.config, post.slow_start_ack_count == pre.slow_start_ack_count,
         post.current_settings == pre.current_settings, post.connack_timeout_timepoint == pre.connack_timeout_timepoint,
+        post.current_operation == pre.current_operation,
     ensures post.wf(),
 {
     assert(post.ss_set() =~= pre.ss_set());
@@ -994,11 +995,13 @@ impl ProtocolState {
         forall|y: Reverse<OperationTimeoutRecord>| #[trigger] hh(final(self).operation_ack_timeouts, y) ==> y.0.timeout.nanos > old(self).current_time.nanos && hh(old(self).operation_ack_timeouts, y),
         // a due record always fails its operation if it is still tracked
         forall|x: Reverse<OperationTimeoutRecord>| (#[trigger] hh(old(self).operation_ack_timeouts, x) && x.0.timeout.nanos <= old(self).current_time.nanos) ==> !final(self).operations@.contains_key(x.0.id),
+        final(self).state == old(self).state || (old(self).state == ProtocolStateType::PendingDisconnect && final(self).state == ProtocolStateType::Halted),
         // F-TIMEOUT-CURRENT: the half-written operation is not protected from its own timeout
         old(self).cur_ok() && no_due_timeout_for_current(*old(self)) ==> final(self).cur_ok(),
 //@@loop 0
         invariant
             self.wf(),
+            self.state == old(self).state || (old(self).state == ProtocolStateType::PendingDisconnect && self.state == ProtocolStateType::Halted),
             completion_frame_but_timeouts(*old(self), *self),
             forall|k: u64| old(self).operations@.contains_key(k) && !self.operations@.contains_key(k) ==>
                 exists|x: Reverse<OperationTimeoutRecord>| hh(old(self).operation_ack_timeouts, x) && x.0.id == k && x.0.timeout.nanos <= old(self).current_time.nanos,
@@ -1102,6 +1105,83 @@ impl ProtocolState {
             (old(self).pending_write_completion && old(self).current_operation is None) ==> context.to_socket@ == old(context).to_socket@ && self.current_operation is None,
             !(old(self).state == ProtocolStateType::PendingConnack || old(self).state == ProtocolStateType::Connected) ==> context.to_socket@ == old(context).to_socket@ && *self == *old(self),
         decreases queue_measure(*self),
+//@end
+}
+
+impl ProtocolState {
+// logging only (Display of the state at debug/trace level); takes &self
+//@fn gneiss-mqtt/src/protocol.rs ProtocolState::log_state stub
+//@end
+
+//@fn gneiss-mqtt/src/protocol.rs ProtocolState::service_queue props=C07,C08,C11
+    requires sq_pre(*old(self), *old(context)),
+        mode == ProtocolQueueServiceMode::HighPriorityOnly <==> old(self).state == ProtocolStateType::PendingConnack,
+    ensures final(self).wf(),
+        r is Ok ==> final(self).cur_ok(),
+        old(context).to_socket@.is_prefix_of(final(context).to_socket@),
+        final(context).current_time == old(context).current_time,
+        // bytes were produced <=> a write completion is now awaited
+        final(self).pending_write_completion == (old(self).pending_write_completion || final(context).to_socket@.len() != old(context).to_socket@.len()),
+        (old(self).pending_write_completion && old(self).current_operation is None) ==> final(context).to_socket@ == old(context).to_socket@,
+        !(old(self).state == ProtocolStateType::PendingConnack || old(self).state == ProtocolStateType::Connected) ==> final(context).to_socket@ == old(context).to_socket@,
+        final(self).state == old(self).state || (old(self).state == ProtocolStateType::Connected && final(self).state == ProtocolStateType::PendingDisconnect),
+        final(self).current_time == old(self).current_time, final(self).config == old(self).config,
+        final(self).current_settings == old(self).current_settings,
+        final(self).connack_timeout_timepoint == old(self).connack_timeout_timepoint,
+        final(self).ping_timeout_timepoint == old(self).ping_timeout_timepoint,
+        final(self).next_operation_id == old(self).next_operation_id,
+        final(self).state == ProtocolStateType::PendingConnack ==> hp_only_connect(*final(self)),
+//@end
+
+//@fn gneiss-mqtt/src/protocol.rs ProtocolState::service_disconnected props=C07,C11
+    ensures r is Ok, *final(self) == *old(self), final(_arg1).to_socket@ == old(_arg1).to_socket@,
+//@end
+
+//@fn gneiss-mqtt/src/protocol.rs ProtocolState::service_pending_connack props=C07,C11
+    requires sq_pre(*old(self), *old(context)), old(self).state == ProtocolStateType::PendingConnack,
+    ensures final(self).wf(), r is Ok ==> final(self).cur_ok(),
+        old(context).to_socket@.is_prefix_of(final(context).to_socket@),
+        // no CONNACK by the establishment deadline => connection error, nothing written
+        old(context).current_time.nanos >= old(self).connack_timeout_timepoint->Some_0.nanos ==>
+            (r matches Err(e) && e.kind() == GErrKind::ConnectionEstablishmentFailure) && *final(self) == *old(self) && final(context).to_socket@ == old(context).to_socket@,
+        final(self).state == ProtocolStateType::PendingConnack,
+        hp_only_connect(*final(self)),
+        final(self).next_operation_id == old(self).next_operation_id,
+//@end
+
+//@fn gneiss-mqtt/src/protocol.rs ProtocolState::service_pending_disconnect props=C07,C18,C11
+    requires old(self).wf(),
+    ensures final(self).wf(),
+        // C07: once the DISCONNECT has been written nothing further is sent
+        final(_arg1).to_socket@ == old(_arg1).to_socket@,
+        final(self).state == old(self).state || final(self).state == ProtocolStateType::Halted,
+        final(self).next_operation_id == old(self).next_operation_id,
+        old(self).state == ProtocolStateType::PendingDisconnect ==> final(self).cur_ok(),
+//@end
+
+//@fn gneiss-mqtt/src/protocol.rs ProtocolState::service_connected props=C11
+    requires sq_pre(*old(self), *old(context)), old(self).state == ProtocolStateType::Connected, opid_budget(*old(self), 1),
+    ensures final(self).wf(),
+        old(context).to_socket@.is_prefix_of(final(context).to_socket@),
+        // keep-alive failure is reported before anything is written
+        (old(self).ping_timeout_timepoint matches Some(pt) && old(context).current_time.nanos >= pt.nanos) ==> r is Err && final(context).to_socket@ == old(context).to_socket@,
+        final(self).state == ProtocolStateType::Connected || final(self).state == ProtocolStateType::PendingDisconnect || final(self).state == ProtocolStateType::Halted,
+        // the engine stays serviceable: the half-written operation (if any) is still tracked  [F-TIMEOUT-CURRENT]
+        r is Ok ==> final(self).cur_ok(),
+//@@finding F-TIMEOUT-CURRENT before "self.process_ack_timeouts()?;"
+        proof { assume(no_due_timeout_for_current(*self)); }
+//@end
+
+//@fn gneiss-mqtt/src/protocol.rs ProtocolState::service props=C11,C07,C08
+    requires sq_pre(*old(self), *old(context)), opid_budget(*old(self), 1),
+    ensures final(self).wf(),
+        old(context).to_socket@.is_prefix_of(final(context).to_socket@),
+        // every error from an entry point switches to Halted ...
+        r is Err ==> final(self).state == ProtocolStateType::Halted,
+        // ... and Halted / Disconnected / PendingDisconnect emit nothing
+        old(self).state == ProtocolStateType::Halted ==> r is Err && final(context).to_socket@ == old(context).to_socket@,
+        (old(self).state == ProtocolStateType::Disconnected || old(self).state == ProtocolStateType::PendingDisconnect) ==> final(context).to_socket@ == old(context).to_socket@,
+        r is Ok ==> inv(*final(self)),
 //@end
 }
 } // verus!
